@@ -62,9 +62,10 @@ def main():
         res = list(ex.map(one_property, sorted(by.items())))
     rows = [r for rs in res for r in rs]
     seed = os.environ.get("VERIF_SEED", "0")
-    with open(os.path.join(VERIF, "seeded", "REGRESSION.md" if seed == "0" else "REGRESSION_seed%s.md" % seed), "w") as f:
-        f.write("# Seeded changes re-run against the checks as they are now\n\nrun of %s, quick tier, seed " + seed + "; produced by tools/regress_seeded.py\n\n"
-                "| seeded change | property | verdict of the property's own check | other checks named in meta.json |\n|---|---|---|---|\n" % time.strftime("%Y-%m-%d %H:%M"))
+    with open(os.path.join(VERIF, "seeded", ("REGRESSION.md" if seed == "0" else "REGRESSION_seed%s.md" % seed) if not pref else "REGRESSION_partial.md"), "w") as f:
+        f.write("# Seeded changes re-run against the checks as they are now\n\nrun of %s, quick tier, seed %s; produced by tools/regress_seeded.py\n\n"
+                "| seeded change | property | verdict of the property's own check | other checks named in meta.json |\n|---|---|---|---|\n"
+                % (time.strftime("%Y-%m-%d %H:%M"), seed))
         for r in rows:
             f.write("| %s | %s | %s | %s |\n" % r)
         f.write("\n%d changes, %d concrete, %d missed by their own check\n" % (len(rows), sum(r[2] == "concrete" for r in rows), sum(r[2] == "MISSED" for r in rows)))
